@@ -2,11 +2,11 @@
 # every semantics-preserving rewrite under seeded/benign against every check (scratch copies under /tmp, removed afterwards);
 # prints the runs that are not exit 0 and writes seeded/benign/results.txt
 S=/tmp/benignmx; rm -rf $S; mkdir -p $S
-for f in /verif/seeded/benign/*.diff; do b=$(basename $f .diff); mkdir -p $S/$b; cp -r /repo/src $S/$b/src; patch -s -p1 -d $S/$b -i $f || echo "PATCHFAIL $b"; done
+for f in /verif/seeded/benign/${BENIGN_FILTER:-}*.diff; do b=$(basename $f .diff); mkdir -p $S/$b; cp -r /repo/src $S/$b/src; patch -s -p1 -d $S/$b -i $f || echo "PATCHFAIL $b"; done
 run(){ b=$1; p=$2; out=$(mktemp -d); VERIF_REPO=/tmp/benignmx/$b VERIF_EVIDENCE_DIR=$out VERIF_REPLAY_DIR=$out timeout 3000 /verif/check $p > $out/log 2>&1; rc=$?
   echo "$b $p exit=$rc $(grep -E 'VIOLATION|UNDECIDED|CHECKER' $out/log | head -2 | cut -c1-200 | tr '\n' '|')"; rm -rf $out; }
 export -f run
-for f in /verif/seeded/benign/*.diff; do b=$(basename $f .diff); for p in C01 C02 C03 C04 C05 C06 C07 C08 C09 C10 C11 C12 C13 C14 C15 C16 C17 C18 C19 C20; do echo "$b $p"; done; done \
-  | xargs -P 8 -L 1 bash -c 'run $0 $1' | sort > /verif/seeded/benign/results.txt
+for f in /verif/seeded/benign/${BENIGN_FILTER:-}*.diff; do b=$(basename $f .diff); for p in C01 C02 C03 C04 C05 C06 C07 C08 C09 C10 C11 C12 C13 C14 C15 C16 C17 C18 C19 C20; do echo "$b $p"; done; done \
+  | xargs -P 8 -L 1 bash -c 'run $0 $1' | sort > ${BENIGN_OUT:-/verif/seeded/benign/results.txt}
 rm -rf $S
-grep -c "exit=0" /verif/seeded/benign/results.txt; grep -v "exit=0" /verif/seeded/benign/results.txt
+grep -c "exit=0" ${BENIGN_OUT:-/verif/seeded/benign/results.txt}; grep -v "exit=0" ${BENIGN_OUT:-/verif/seeded/benign/results.txt}
